@@ -2,6 +2,7 @@ import SaModel.Props.C04
 import SaModel.Props.C01Complete
 import SaModel.Lemmas.C04Accept
 import SaModel.Props.C03Traced
+import SaModel.Props.C03Codec
 /-
 C04, the acceptance half: **the schema traced from a type accepts every value of that type**.
 
@@ -185,6 +186,25 @@ theorem C04_end_to_end_nodict_partial (c : Trace.Code) (O : Trace.Options) (ext 
       ((∀ a ∈ arrs, Read.physical a = true) →
         readAll (toTarget (.struct n fs)) fields arrs = .ok (vs.map fun v => dvalOf (.struct n fs) (norm (.struct n fs) v))) :=
   C04_end_to_end_partial c O ext n fs vs h0 hfrag hsz hne hwt hsc hext hw hm hb (C04_safeFs_nodict (viewOpts O) hd he fs) hcap
+
+/-- **C04 end to end at the codec models**: with the external string parsers instantiated by the models of C14
+(`Props.C16.codecExt`, what the correspondence driver runs), `ExtOK` is a theorem (`Props.C03.codecExt_ok`) and the
+hypothesis `hext` disappears.  `_partial` only because of `hphys` in the conclusion (see `C04_end_to_end_partial`). -/
+theorem C04_end_to_end_codec_partial (f32Str f64Str : Nat → String) (cast : Nat → Int → Bool → Nat → Option (Bool × Int))
+    (c : Trace.Code) (O : Trace.Options) (n : String) (fs : TFields) (vs : List Val)
+    (h0 : O.overwrites = []) (hfrag : fragE (.struct n fs) = true) (hsz : sized (.struct n fs) = true) (hne : fs ≠ .nil)
+    (hwt : ∀ v ∈ vs, wt (.struct n fs) v = true)
+    (hsc : ∀ v ∈ vs, inScopeO (viewOpts O) (.struct n fs) v = true)
+    (hw : Trace.Spec.walkable O "$" (toTraceTy (.struct n fs)) = true)
+    (hm : mappable (viewOpts O) (.struct n fs) = true)
+    (hb : Trace.Spec.passes (toTraceTy (.struct n fs)) ≤ O.from_type_budget)
+    (hsafe : safeFs (mappingFields (viewOpts O) fs) = true)
+    (hcap : ((vs.map (ser (.struct n fs))).map (vsize (Props.C16.codecExt f32Str f64Str cast))).sum ≤ 2147483647) :
+    ∃ fields arrs, Trace.fromType c O (toTraceTy (.struct n fs)) = .ok fields ∧
+      toMarrow (Props.C16.codecExt f32Str f64Str cast) fields (vs.map (ser (.struct n fs))) = .ok arrs ∧
+      ((∀ a ∈ arrs, Read.physical a = true) →
+        readAll (toTarget (.struct n fs)) fields arrs = .ok (vs.map fun v => dvalOf (.struct n fs) (norm (.struct n fs) v))) :=
+  C04_end_to_end_partial c O _ n fs vs h0 hfrag hsz hne hwt hsc (Props.C03.codecExt_ok f32Str f64Str cast) hw hm hb hsafe hcap
 
 /-! ### non-vacuity: the batch of `Props/C04.lean` (`exFragRoot`, two records) meets every hypothesis -/
 
